@@ -29,6 +29,7 @@ DEPENDS = "repid.dependencies.depends.Depends"
 
 
 def run(ctx: Ctx) -> None:
+    asyncify_rule(ctx)
     kinds(ctx)
     inside_try(ctx)
     declare(ctx)
@@ -278,3 +279,22 @@ def chain(ctx: Ctx, f: FuncInfo, provider: str, rule="R-C18-FLOW") -> None:
         ok = ok and len(asg) == 1 and isinstance(asg[0].targets[0], ast.Tuple) and [dotted(e) for e in asg[0].targets[0].elts] == ["args", "kwargs"]
         ctx.check(ok, rule, f, "args, kwargs = actor.converter.convert_inputs(payload)", "the converter's result, unmodified", "actor_run does not bind (args, kwargs) to the converter's result for the payload",
                   instance="convert_inputs binding")
+
+
+def asyncify_rule(ctx: Ctx, rule="R-C18-FLOW") -> None:
+    """Sync providers / actors run in an executor with exactly the arguments they were called with, and their value comes back."""
+    f = ctx.func("repid._asyncify.asyncify")
+    inner = f.nested.get("inner")
+    ctx.require(inner is not None, f"{f.qualname}: inner wrapper not found")
+    run = [c for c in ast.walk(inner.node) if isinstance(c, ast.Call) and isinstance(c.func, ast.Attribute) and c.func.attr == "run_in_executor"]
+    ok = len(run) == 1 and len(run[0].args) == 2 and isinstance(run[0].args[1], ast.Call) and dotted(run[0].args[1].func) == "partial" \
+        and unparse(run[0].args[1]) == "partial(fn, *args, **kwargs)"
+    ctx.check(ok, rule, inner, "sync callable run as partial(fn, *args, **kwargs) in the executor", "arguments handed over unchanged", f"asyncify runs {unparse(run[0])[:80] if run else 'nothing'} in the executor", instance="asyncify arguments")
+    rets = [r for r in ast.walk(inner.node) if isinstance(r, ast.Return)]
+    ok = len(rets) == 1 and isinstance(rets[0].value, ast.Await) and run and rets[0].value.value is run[0]
+    ctx.check(ok, rule, inner, "asyncify returns the callable's value", "return await run_in_executor(...)", "asyncify does not return the awaited executor result", instance="asyncify result")
+    g = ctx.cfg(f)
+    rr = [n for n in g.nodes if n.kind == "return"]
+    tests = [t for t in g.nodes if t.kind == "test"]
+    ok = len(tests) >= 1 and any("iscoroutinefunction(fn)" in t.label for t in tests) and any(dotted(n.ast.value) == "fn" for n in rr) and any(dotted(n.ast.value) == "inner" for n in rr)
+    ctx.check(ok, rule, f, "coroutine functions are used as they are, others wrapped", "iscoroutinefunction(fn) -> fn, else inner", "asyncify no longer returns coroutine functions unchanged / wraps the others", instance="asyncify dispatch")
